@@ -50,6 +50,9 @@ class UCGInitialize(Initialize):
 
     def _define_initialize(self):
 
+        # start from an empty circuit: the definition may be rebuilt (e.g. on a copy of the gate)
+        self.circuit = QuantumCircuit(self.register)
+
         children = self.params
         parent = self._update_parent(children)
         tree_level = self.num_qubits
